@@ -18,7 +18,7 @@ from vplib.common import VERIF
 
 MANIFEST = dict(
     category="proof",
-    text="partial. Coq theorems on the executable model of compatibility.rs and of the executor's table lookups: the first-occurrence rule of TypeIndex, table_is_relation (a tag is in a pattern's row iff the tag's type is assignable to the pattern; functions by type_id, builtins via callable_to_type, processes via (receive, result), resources by name; a tuple id without a Type::Tuple entry is never accepted), istype_is_relation, istype_sound relative to C09's compat_sound (cycle-free fragment, side conditions explicit), istype_complete under has_type_entry and the transitivity instance, parameter tables (rows cover every function; permissive only when absent; param_compat=false accepts everything). NOT a theorem: soundness on the recursive fragment (C09's gap), equality of verdicts across configurations (checked on every run on structural images of the real tables). Every run compares the model's three tables with the real ones for every harvested program in three configurations and runs generated (value, type) pairs through real programs against the value semantics of Sem.v.",
+    text="partial. Coq theorems on the executable model of compatibility.rs and of the executor's table lookups: the first-occurrence rule of TypeIndex, table_is_relation (a tag is in a pattern's row iff the tag's type is assignable to the pattern; functions by type_id, builtins via callable_to_type, processes via (receive, result), resources by name; a tuple id without a Type::Tuple entry is never accepted), istype_is_relation, istype_sound relative to C09's compat_sound (cycle-free fragment, side conditions explicit), istype_complete under has_type_entry (with the transitivity instance as a hypothesis in general; WITHOUT it on the cycle-free fragment, by C09's compat_trans_partial), parameter tables (rows cover every function; permissive only when absent; param_compat=false accepts everything). NOT a theorem: soundness on the recursive fragment (C09's gap), equality of verdicts across configurations (checked on every run on structural images of the real tables). Every run compares the model's three tables with the real ones for every harvested program in three configurations and runs generated (value, type) pairs through real programs against the value semantics of Sem.v.",
     design_ref="§5 C08",
     note="Trusted: Coq kernel, extraction, OCaml driver, Rust harness, generators. The end-to-end generator avoids nil values/types (F13, F27 shapes) and gives every value its own type as a member of the static union (so the compile-time narrowing of C09's known finding F25 is not exercised); process values are not generated end-to-end (F70 is pinned as a model witness).",
     technique="Coq proof on an executable model + model/code correspondence on real tables + end-to-end verdict oracle",
